@@ -3,6 +3,7 @@ package gpbftsim
 import (
 	"fmt"
 	"sort"
+	"time"
 
 	"github.com/filecoin-project/go-bitfield"
 	rlepluslazy "github.com/filecoin-project/go-bitfield/rle"
@@ -260,6 +261,12 @@ func (b *Byz) craft(m *Member, k, round uint64, phase gpbft.Phase, value *gpbft.
 	if phase == gpbft.CONVERGE_PHASE {
 		mb.BeaconForTicket = info.Beacon
 	}
+	if b.w.c.Chance(40) {
+		// validly signed vote over foreign commitments (the justification stays genuine):
+		// invalid, because vote and justification disagree on the supplemental data
+		mb.Payload.SupplementalData.Commitments[31] ^= 0xa5
+		b.w.r.Probe("byz_foreign_commitments")
+	}
 	sb, err := mb.PrepareSigningInputs(m.ID)
 	if err != nil {
 		return nil
@@ -418,6 +425,16 @@ func (b *Byz) campValue(k uint64, camp int) *gpbft.ECChain {
 		return nil
 	}
 	t := b.campTarget[k]
+	if b.w.cfg.ByzStrategy == 5 && info.Base != nil {
+		// forger: one fixed chain that no honest member proposes, promoted to everybody
+		if t[0] == nil {
+			t[0] = &gpbft.ECChain{TipSets: []*gpbft.TipSet{info.Base, mkTipset(info.Base.Epoch+1, fmt.Sprintf("forged-%d-x", k))}}
+			t[1] = t[0]
+			b.campTarget[k] = t
+			b.learnChain(k, t[0])
+		}
+		return t[camp]
+	}
 	if t[camp] == nil {
 		for _, m := range b.w.members {
 			if m.Role == Honest && b.w.cfg.Camp[m.Idx] == camp {
@@ -486,11 +503,61 @@ func (b *Byz) pursue(k uint64) {
 	}
 }
 
+// relabel replays an honest member's signed vote with a different announced chain key on the
+// two-stage path (the adversary needs no key for that: the signed bytes are unchanged), and
+// supplies the chain matching the new key. A sound validator rejects it.
+func (b *Byz) relabel(msg *gpbft.GMessage) {
+	w, c := b.w, b.w.c
+	if msg.Vote.Value.IsZero() || len(b.members) == 0 {
+		return
+	}
+	k := msg.Vote.Instance
+	var alt *gpbft.ECChain
+	for i := 0; i < 4 && alt == nil; i++ {
+		if v := b.pickValue(k, msg.Vote.Phase, false); v != nil && !v.Eq(msg.Vote.Value) {
+			alt = v
+		}
+	}
+	if alt == nil {
+		return
+	}
+	key := alt.Key()
+	from := b.members[0]
+	n := 0
+	for _, to := range w.members {
+		if to.Role != Honest || !c.Chance(600) {
+			continue
+		}
+		// the genuine chain is withheld from this victim for a while
+		if w.chainAvail == nil {
+			w.chainAvail = map[int]map[gpbft.ECChainKey]time.Duration{}
+		}
+		if w.chainAvail[to.Idx] == nil {
+			w.chainAvail[to.Idx] = map[gpbft.ECChainKey]time.Duration{}
+		}
+		gk := msg.Vote.Value.Key()
+		if _, known := w.chainAvail[to.Idx][gk]; !known {
+			w.chainAvail[to.Idx][gk] = w.now() + c.Dur(2*w.cfg.Delta, 10*w.cfg.Delta)
+		}
+		dl := &delivery{from: from.Idx, to: to, msg: msg, byz: true, key: &key, chain: alt}
+		ev := w.s.At(w.now()+c.Dur(0, w.cfg.Delta), func() { w.deliver(dl) })
+		ev.Tag, ev.Actor = tagDeliver|0x100, to.Idx
+		n++
+	}
+	if n > 0 {
+		w.r.Fault("byz_relabel")
+		w.r.Tracef("t=%d byz relabels %s as %s -> %d honest", w.now(), msgStr(msg), chainStr(alt), n)
+	}
+}
+
 // react is called after every honest broadcast.
 func (b *Byz) react(msg *gpbft.GMessage) {
 	w := b.w
 	if len(b.members) == 0 {
 		return
+	}
+	if w.cfg.PartialPath && w.c.Chance(150) {
+		b.relabel(msg)
 	}
 	if w.cfg.ByzStrategy >= 3 {
 		if msg.Vote.Phase == gpbft.DECIDE_PHASE {
